@@ -99,5 +99,6 @@ class AA20(MetadataSchema):
 
 CLASSES = {
     "old": [AA10, BB10, CC10, DD10, XX10],
-    "new": [AA11, BB11, CC11, DD11, AA20],
+    "new": [AA11, BB11, CC11, DD11, XX10],
+    "v2": [AA20],
 }
